@@ -326,7 +326,12 @@ def shard(ctx):
                 try:
                     got = tb.norm_py(tb.of_repo(out[1], 'strict'))
                 except tb.Capture:
-                    out = ('refused', 'capture pending in lazy Instantiate')
+                    # the rule RETURNED (a lazily evaluated node) although carrying the instantiation out captures: a conclusion nobody can
+                    # expand.  The rule has to refuse when it is called, not when somebody looks at the result.
+                    ctx.count('inst:returned_unexpandable_conclusion')
+                    ctx.violation('inst_returns_unexpandable_conclusion', 'instantiate returned a lazily evaluated conclusion whose expansion captures (the refusal is deferred to whoever expands it)',
+                                  W(rule='instantiate', driver=driver, conclusion=conc, delta={str(i): tb.pretty(v) for i, v in delta_e.items()}))
+                    continue
             ctx.count('inst:applicable' if reason is None else 'inst:inapplicable:' + reason)
             w = W(rule='instantiate', driver=driver, conclusion=conc, conclusion_expansion=tb.pretty(conc_e),
                   delta={str(i): tb.pretty(v) for i, v in delta_e.items()}, outcome=out[0], detail=out[1])
